@@ -64,6 +64,8 @@ def navV (via : Bool) (n : Node) (v : Val) (p : List Seg) : NavR :=
   match p with
   | [] => .found ⟨n, v⟩ via
   | s :: rest =>
+    -- a path that continues past a scalar, string or bytes element is outside the property
+    if n.isLeaf then .unspec else
     if n.ptr && v.isNilPtr then .miss via else
     let w := if n.ptr then (match v with | .ptr w => w | w => w) else v
     match n, w with
